@@ -5,7 +5,7 @@
 // cleartext origin log how each request was forwarded; a hijacking modifier
 // writes a marker through the connection it was handed.
 //
-// IN tokens:  L<p|s|t|x> T<t|p|n>[b|c] req*
+// IN tokens:  L<p|s|t|x> T<t|p|n>[b|c] [A<n|1|2><u|a|d>] req*
 //
 //	L  listener: p plain TCP, s traffic-shaped, t transparent TLS (no CONNECT; T must be n),
 //	   x transparent TLS wrapped by a traffic-shaping listener (no CONNECT; T must be n)
@@ -14,6 +14,10 @@
 //	   CONNECT response: default the client waits for the 200; b it sends them in the SAME write as the
 //	   CONNECT head; c it sends the CONNECT head plus the first few of those bytes in one write and
 //	   the rest in a second write
+//	A  TLS configuration of the tunnel (default Anu): what the client offers by ALPN: n nothing,
+//	   1 http/1.1, 2 h2 and http/1.1; and mitm.Config.SetH2Config: u unset, a set with a filter that
+//	   allows the host, d set with a filter that allows no host.  A2a (h2 is negotiated and the
+//	   connection goes to the HTTP/2 relay) is not a case of this property: INVALID.
 //	req = <form>[H][I|M|V]
 //	  form o origin-form, Host: example.com | a absolute http://other.test/.. | s absolute https://other.test/..
 //	       n origin-form, HTTP/1.0, no Host header (closes the connection)
@@ -27,6 +31,8 @@
 //	R,i,scheme,host,secure,tls,sess,up,status,hk,mk
 //	  scheme/host = req.URL.Scheme / req.URL.Host seen by the request modifier (- = empty)
 //	  secure = Session().IsSecure(), sess = session ID (first-occurrence index)
+//	  (in the CONNECT exchange the request modifier stores a value with Session().Set; every later
+//	   exchange must read it back with Session().Get: a miss is reported as session 97)
 //	  tls = 0 req.TLS is nil | 1 req.TLS is non-nil and, when the client speaks TLS on this connection,
 //	        HandshakeComplete with the version, cipher suite and server name (SNI) the CLIENT side of that
 //	        very connection negotiated | 2 non-nil but not that state (incomplete / empty / different)
@@ -53,6 +59,7 @@ import (
 	"time"
 
 	martian "github.com/google/martian/v3"
+	"github.com/google/martian/v3/h2"
 	mlog "github.com/google/martian/v3/log"
 	"github.com/google/martian/v3/trafficshape"
 	"verifharness/hx"
@@ -156,7 +163,9 @@ type rec struct {
 	hk    map[int]string
 	ntoks map[int]reqTok
 	lastV int // index of the last request whose modifier called Session.Set
-	pref  string
+	// the CONNECT exchange's modifier stored a value in the session
+	setAtConnect bool
+	pref         string
 }
 
 func (e *rec) idx(id string) int {
@@ -215,6 +224,20 @@ func (e *rec) ModifyRequest(req *http.Request) error {
 		e.mu.Unlock()
 	}
 	if ctx != nil && ctx.Session() != nil {
+		if req.Method == "CONNECT" {
+			ctx.Session().Set("verif-connect", e.pref)
+			e.mu.Lock()
+			e.setAtConnect = true
+			e.mu.Unlock()
+		} else {
+			e.mu.Lock()
+			if e.setAtConnect {
+				if v, ok := ctx.Session().Get("verif-connect"); !ok || v != e.pref {
+					sid = 97
+				}
+			}
+			e.mu.Unlock()
+		}
 		e.mu.Lock()
 		if e.lastV > 0 {
 			if v, ok := ctx.Session().Get("verif"); !ok || v != e.lastV {
@@ -303,8 +326,20 @@ func runCase(in []string) (out []string) {
 	if !strings.ContainsRune("pstx", rune(lk)) || !strings.ContainsRune("tpn", rune(tk)) || (lk == 't' || lk == 'x') != (tk == 'n') {
 		return []string{"INVALID"}
 	}
+	alpn, h2m := byte('n'), byte('u')
+	rest := in[2:]
+	if len(rest) > 0 && len(rest[0]) == 3 && rest[0][0] == 'A' {
+		alpn, h2m = rest[0][1], rest[0][2]
+		rest = rest[1:]
+		if !strings.ContainsRune("n12", rune(alpn)) || !strings.ContainsRune("uad", rune(h2m)) {
+			return []string{"BADCASE"}
+		}
+		if alpn == '2' && h2m == 'a' {
+			return []string{"INVALID"}
+		}
+	}
 	var toks []reqTok
-	for _, t := range in[2:] {
+	for _, t := range rest {
 		if len(t) < 1 || len(t) > 3 || !strings.ContainsRune("oasn", rune(t[0])) {
 			return []string{"BADCASE"}
 		}
@@ -347,6 +382,13 @@ func runCase(in []string) (out []string) {
 		}
 		return net.DialTimeout("tcp", target, 5*time.Second)
 	})
+	switch h2m {
+	case 'a':
+		mc.SetH2Config(&h2.Config{AllowedHostsFilter: func(string) bool { return true }, RootCAs: roots})
+	case 'd':
+		mc.SetH2Config(&h2.Config{AllowedHostsFilter: func(string) bool { return false }, RootCAs: roots})
+	}
+	defer mc.SetH2Config(nil) // the MITM configuration is shared by all cases of the run
 	p.SetMITM(mc)
 	p.SetRequestModifier(e)
 	p.SetResponseModifier(e)
@@ -376,6 +418,12 @@ func runCase(in []string) (out []string) {
 	}()
 
 	ccfg := p2x.ClientTLS(roots, "example.com")
+	switch alpn {
+	case '1':
+		ccfg.NextProtos = []string{"http/1.1"}
+	case '2':
+		ccfg.NextProtos = []string{"h2", "http/1.1"}
+	}
 	status := map[int]string{}
 	marker := map[int]string{}
 	raw, err := net.DialTimeout("tcp", l.Addr().String(), 5*time.Second)
@@ -542,8 +590,13 @@ func main() {
 		cfg.Emit(hx.Case{Name: fmt.Sprintf("%s%d", kind, n), In: in, Out: runCase(in)})
 		cfg.Count("listener=" + in[0])
 		cfg.Count("tunnel=" + in[1])
-		cfg.Count(fmt.Sprintf("requests=%d", len(in)-2))
-		for _, t := range in[2:] {
+		rq := in[2:]
+		if len(rq) > 0 && strings.HasPrefix(rq[0], "A") {
+			cfg.Count("alpn_h2config=" + rq[0][1:])
+			rq = rq[1:]
+		}
+		cfg.Count(fmt.Sprintf("requests=%d", len(rq)))
+		for _, t := range rq {
 			cfg.Count("form=" + t[:1])
 			if strings.Contains(t, "H") {
 				cfg.Count("hijack=1")
@@ -606,6 +659,20 @@ func main() {
 			}
 		}
 	}
+	// client ALPN offer x H2Config set/unset: HTTP/1.1 traffic is handled by the HTTP/1 path in
+	// every combination in which h2 is not negotiated
+	for _, a := range []string{"Ana", "And", "A1u", "A1a", "A1d", "A2u", "A2d"} {
+		for _, m := range [][2]string{{"Lp", "Tt"}, {"Ls", "Tt"}, {"Lp", "Ttb"}, {"Lt", "Tn"}, {"Lx", "Tn"}, {"Lp", "Tp"}} {
+			for _, s := range seqs {
+				if len(s) == 0 || len(s) > 2 {
+					continue
+				}
+				emit("alpn", append([]string{m[0], m[1], a}, s...))
+			}
+			emit("alpnH", []string{m[0], m[1], a, "o", "aH"})
+			emit("alpnV", []string{m[0], m[1], a, "oV", "sI", "o"})
+		}
+	}
 	for _, m := range modes {
 		for _, s := range seqs {
 			emit("exh", append([]string{m[0], m[1]}, s...))
@@ -651,6 +718,9 @@ func main() {
 		in := []string{m[0], m[1]}
 		if m[1] != "Tn" {
 			in[1] += []string{"", "", "b", "c"}[r.Intn(4)]
+		}
+		if r.Chance(1, 2) {
+			in = append(in, []string{"Ana", "And", "A1u", "A1a", "A1d", "A2u", "A2d"}[r.Intn(7)])
 		}
 		ln := r.Range(1, maxLen)
 		for i := 0; i < ln; i++ {
